@@ -287,6 +287,56 @@ func TestC17(t *testing.T) {
 	if t.Failed() {
 		return
 	}
+	// ---------------- burst: many goroutines Return to a full pool at the same moment
+	// (a Return that makes room and then sends unconditionally parks for good when
+	// another Return slips in between; nobody Gets during the burst)
+	for round := 0; round < rec.EnvInt("VERIF_C17_ROUNDS", 30); round++ {
+		rng := seedFor(fmt.Sprint("C17burst", round))
+		kind := poolKinds[rng.next()%3]
+		size := 1 + int(rng.next()%4)
+		n := []int{4, 16, 64}[rng.next()%3]
+		pool, _, _ := newPool(kind, size)
+		objs := make([]interface{}, size+n)
+		for i := range objs {
+			objs[i] = pool.Get()
+		}
+		for i := 0; i < size; i++ {
+			pool.Return(objs[i]) // now full
+		}
+		var wg sync.WaitGroup
+		start := make(chan struct{})
+		for g := 0; g < n; g++ {
+			wg.Add(1)
+			go func(o interface{}) {
+				defer wg.Done()
+				<-start
+				pool.Return(o)
+			}(objs[size+g])
+		}
+		done := make(chan struct{})
+		go func() { wg.Wait(); close(done) }()
+		close(start)
+		if msg := waitOrParked(done, "burst of Returns on a full pool"); msg != "" {
+			directFail(t, "C17", map[string]interface{}{"pool": kind, "size": size, "goroutines": n, "phase": "burst-return"}, "C17 %s(size %d), %d simultaneous Returns on a full pool: %s", kind, size, n, msg)
+		}
+		// same for Gets on an empty pool
+		pool2, _, _ := newPool(kind, size)
+		var wg2 sync.WaitGroup
+		start2 := make(chan struct{})
+		for g := 0; g < n; g++ {
+			wg2.Add(1)
+			go func() { defer wg2.Done(); <-start2; pool2.Get() }()
+		}
+		done2 := make(chan struct{})
+		go func() { wg2.Wait(); close(done2) }()
+		close(start2)
+		if msg := waitOrParked(done2, "burst of Gets on an empty pool"); msg != "" {
+			directFail(t, "C17", map[string]interface{}{"pool": kind, "size": size, "goroutines": n, "phase": "burst-get"}, "C17 %s(size %d), %d simultaneous Gets on an empty pool: %s", kind, size, n, msg)
+		}
+		r.EvalN(int64(2 * n))
+		r.NonTrivial(av.Hash(fmt.Sprint("burst", kind, size, n, round)))
+		r.Label("burst:return-on-full+get-on-empty")
+	}
 	// ---------------- concurrent: ownership table under the race detector
 	rounds := rec.EnvInt("VERIF_C17_ROUNDS", 30)
 	rng := seedFor("C17")
@@ -362,11 +412,12 @@ func TestC17(t *testing.T) {
 // waitOrParked waits for done; reports only if every goroutine of the round is
 // parked in a channel operation inside pool code (deadlock), never on time alone.
 func waitOrParked(done chan struct{}, what string) string {
+	stable := 0
 	for {
 		select {
 		case <-done:
 			return ""
-		case <-time.After(5 * time.Second):
+		case <-time.After(300 * time.Millisecond):
 		}
 		buf := make([]byte, 4<<20)
 		buf = buf[:runtime.Stack(buf, true)]
@@ -382,7 +433,13 @@ func waitOrParked(done chan struct{}, what string) string {
 			}
 		}
 		if blocked > 0 && active == 0 {
-			return fmt.Sprintf("%s deadlocked: %d goroutines parked inside the pool, none runnable", what, blocked)
+			// confirm: the same picture three times in a row (nobody is about to wake them)
+			stable++
+			if stable >= 3 {
+				return fmt.Sprintf("%s deadlocked: %d goroutines parked inside the pool, none runnable", what, blocked)
+			}
+		} else {
+			stable = 0
 		}
 	}
 }
